@@ -423,14 +423,16 @@ func (m *Machine) modelInputs(extra ...*smt.Term) ([]InputVal, bool) {
 	for _, e := range extra {
 		m.S.Assert(e)
 	}
-	if m.S.Check() != smt.Sat {
+	if r := m.S.Check(); r != smt.Sat {
+		m.note("model-inputs-check:%s", r)
 		return nil, false
 	}
 	mod, err := m.S.GetModel(m.F.Vars)
 	if err != nil {
+		m.note("model-inputs-getmodel:%v", err)
 		return nil, false
 	}
-	var out []InputVal
+	out := []InputVal{}
 	for _, in := range m.inputs {
 		iv := InputVal{Name: in.name, Kind: in.kind}
 		if in.term == nil {
